@@ -221,7 +221,8 @@ ScnHash == SumSeq(Vals(P)[Len(P)]) + 3 * Len(P) + 5 * Cardinality(call.inputs) +
            + 11 * Len(call.tensors) + 17 * Cardinality(call.pre)
            + 13 * SumSeq([i \in 1..Len(P) |-> IF P[i].op = "leaf" THEN P[i].size + i
                                                ELSE i * P[i].a + (IF P[i].op \in Binary THEN 3 * P[i].b ELSE 1)])
-           + 19 * SumSeq([i \in 1..Len(call.tensors) |-> i * call.tensors[i]])
+           + 19 * SumSeq([i \in 1..Len(call.tensors) |-> call.tensors[i]])     \* symmetric in the order of `tensors`:
+                                                                                  \* both orders of a pair are exported together
            + 23 * SumSeq([i \in 1..Len(P) |-> IF i \in call.inputs THEN i * i ELSE 0])
 Export == (phase = "init" /\ (ScnHash % SampleMod) = SamplePick)
              => PrintT(<<"SCN", ToJson(Scenario)>>)
